@@ -144,12 +144,9 @@ func okResult(ob *Obligation) bool {
 		return false
 	}
 	if ob.Cover {
-		return ob.Result.Status == "sat"
+		// a cover query guards against vacuity: only a proof of unreachability (unsat) is a failure
+		return ob.Result.Status != "unsat" && ob.Result.Status != "error"
 	}
 	return ob.Result.Status == "unsat"
 }
 
-func cmdCheck(args []string) int {
-	fmt.Fprintln(os.Stderr, "check: not implemented yet")
-	return 2
-}
